@@ -966,8 +966,11 @@ func runClique(t *core.Tape, info *core.RunInfo) *core.Violation {
 		if onlyFor >= 0 && onlyFor != i && fault != "falsified-secret" && fault != "claims-false-branch" && fault != "drop-out" {
 			continue
 		}
-		if p.errs[victim] == nil && p.errs[i] == nil {
-			return viol("soundness", "clique/accepted/"+sn+"/"+fault, "participant %d accepted participant %d although: %s (round %d)", i, victim, fault, fround)
+		// whatever happened to participant i's own run (it may have aborted in the key exchange), the
+		// slot of a participant whose proof was not verified to the end must not read "accepted" (seed
+		// C14h: a verdict was written provisionally after the first message and survived an abort)
+		if p.errs[victim] == nil {
+			return viol("soundness", "clique/accepted/"+sn+"/"+fault, "participant %d accepted participant %d although: %s (round %d; its own slot: %v)", i, victim, fault, fround, p.errs[i])
 		}
 		info.Probe("clique-fault-detected")
 	}
